@@ -282,6 +282,22 @@ def _scan_obligation(res, prefix, k, label):
                 eof = True
                 break
         e.check(eof, 'the scanner reaches the end of the text (every token consumes at least one character)', {'tokens': len(e.path_state['tokens'])})
+        # the line table (what tracebacks and diagnostics turn offsets into lines with): one entry per line of the text, wherever the
+        # line breaks sit (code, comments, inside string literals)
+        scv = sc
+        while isinstance(scv, Ref):
+            scv = scv.cell.get(e)
+        ssd = P.struct_def(scv.ty)
+        li = [i for i, (n_, _) in enumerate(ssd.fields) if n_ == 'line_offsets']
+        no_error = all(not (isinstance(kd, EnumV) and kd.variant_name() == 'Error') for kd, _, _ in e.path_state['tokens'])
+        if li and eof and no_error:
+            # (a text with a scan error is rejected as a whole; only the first diagnostic is then guaranteed to sit on its line)
+            offs = scv.field(e, li[0], ssd.fields[li[0]][1]).get(e)
+            newlines = bv(0, 64)
+            for i_, ch in enumerate(src.chars):
+                newlines = newlines + z3.If(z3.And(z3.ULT(bv(i_, 64), src.n), ch == 10), bv(1, 64), bv(0, 64))
+            e.check(offs.len == 1 + newlines, 'the line table has one entry per line of the text (a line break inside a string literal or a comment counts)',
+                    {'entries': str(z3.simplify(offs.len))[:60]})
         return {'prefix': prefix, 'tokens': len(e.path_state['tokens'])}
     results = e.explore(path)
     for r in results:
@@ -312,7 +328,7 @@ PREFIXES = [
 
 for _name, _prefix, _kq, _kt in PREFIXES:
     def _mk(name=_name, prefix=_prefix, kq=_kq, kt=_kt):
-        @obligation('C15.K2.scan_' + name, 'C15', programs=('vm-dbg',))
+        @obligation('C15.K2.scan_' + name, 'C15', programs=('vm-dbg',), also=(('C18',) if name in ('string', 'single_quote', 'comment') else ()))
         def ob(res, tier):
             _scan_obligation(res, prefix, kq if tier == 'quick' else kt, name)
         ob.__doc__ = f"""Scanner::new + scan_token to Eof on every text {prefix!r} + up to {kq} (quick) / {kt} arbitrary characters: no panic, slices at
